@@ -131,7 +131,7 @@ func mainRun(args []string) int {
 		fmt.Fprintln(os.Stderr, "simexec: unknown property", *prop)
 		return 2
 	}
-	known := loadKnown(*knownPath)
+	knownGlobal = loadKnown(*knownPath)
 	res := &WorkerResult{Prop: *prop, Tier: *tier, Seed: *seed, Worker: *worker, Workers: *workers,
 		Sigs: map[string]bool{}, Stats: map[string]int{}, NotJudged: map[string]int{}}
 	t0 := time.Now()
@@ -167,38 +167,38 @@ func mainRun(args []string) int {
 		if len(res.Samples) < 2 && v.NonTrivial && v.OK {
 			res.Samples = append(res.Samples, sampleOf(sc))
 		}
-		if v.OK {
+		// known findings hit in this scenario: minimise and record the first of each
+		for _, kid := range sortedKeys(v.KnownHits) {
+			if avoid[kid] {
+				res.Stats["known-finding-again:"+kid]++
+				continue
+			}
+			avoid[kid] = true
+			kid := kid
+			hit := func(c *Verdict) bool { _, ok := c.KnownHits[kid]; return ok }
+			msc, mv, st := shrinkBy(p, sc, v, time.Duration(*shrinkSec*float64(time.Second)), hit)
+			rec := ViolationRec{Class: "known:" + kid, Msg: mv.KnownHits[kid], Known: kid, Seed: *seed, Index: idx, Shrink: fmt.Sprintf("tried=%d kept=%d", st.Tried, st.Kept)}
+			if err := writeReplay(*replays, *prop, *tier, &rec, msc); err != nil {
+				res.Trouble = err.Error()
+				break
+			}
+			res.Violations = append(res.Violations, rec)
+		}
+		if v.OK || res.Trouble != "" {
+			if res.Trouble != "" {
+				break
+			}
 			continue
 		}
-		if avoid[v.Class] {
-			res.Stats["violation-of-known-class-not-reshrunk"]++
-			continue
-		}
-		// minimise, preferring scenarios that no known finding covers
-		msc, mv, st := shrink(p, sc, v, time.Duration(*shrinkSec*float64(time.Second)), func(c *Scenario, cv *Verdict) bool {
-			return known.match(c, cv) == ""
-		})
-		kid := known.match(msc, mv)
-		if kid != "" {
-			// a known finding: shrink again without the preference to present it minimal
-			msc, mv, st = shrink(p, sc, v, time.Duration(*shrinkSec*float64(time.Second)), nil)
-			kid = known.match(msc, mv)
-		}
-		rec := ViolationRec{Class: mv.Class, Msg: mv.Msg, Known: kid, Seed: *seed, Index: idx, Shrink: fmt.Sprintf("tried=%d kept=%d", st.Tried, st.Kept)}
-		rf := ReplayFile{Property: *prop, Class: mv.Class, Message: mv.Msg, Seed: *seed, Index: idx, Tier: *tier, Shrink: rec.Shrink, Scenario: msc}
-		b, _ := json.MarshalIndent(rf, "", " ")
-		name := fmt.Sprintf("%s-s%d-i%d-%08x.json", *prop, *seed, idx, uint32(hashStr(string(b))))
-		os.MkdirAll(*replays, 0755)
-		rec.Replay = filepath.Join(*replays, name)
-		if err := ioutil.WriteFile(rec.Replay, b, 0644); err != nil {
-			res.Trouble = "cannot write replay file: " + err.Error()
+		cls := v.Class
+		msc, mv, st := shrinkBy(p, sc, v, time.Duration(*shrinkSec*float64(time.Second)), func(c *Verdict) bool { return !c.OK && c.Class == cls })
+		rec := ViolationRec{Class: mv.Class, Msg: mv.Msg, Seed: *seed, Index: idx, Shrink: fmt.Sprintf("tried=%d kept=%d", st.Tried, st.Kept)}
+		if err := writeReplay(*replays, *prop, *tier, &rec, msc); err != nil {
+			res.Trouble = err.Error()
 			break
 		}
 		res.Violations = append(res.Violations, rec)
-		if kid == "" {
-			break // an unlisted violation ends this worker
-		}
-		avoid[mv.Class] = true
+		break // an unlisted violation ends this worker
 	}
 	res.WallS = time.Since(t0).Seconds()
 	b, _ := json.Marshal(res)
@@ -213,6 +213,18 @@ func mainRun(args []string) int {
 		return 2
 	}
 	return 0
+}
+
+func writeReplay(dir, prop, tier string, rec *ViolationRec, msc *Scenario) error {
+	rf := ReplayFile{Property: prop, Class: rec.Class, Message: rec.Msg, Seed: rec.Seed, Index: rec.Index, Tier: tier, Shrink: rec.Shrink, Scenario: msc}
+	b, _ := json.MarshalIndent(rf, "", " ")
+	name := fmt.Sprintf("%s-s%d-i%d-%08x.json", prop, rec.Seed, rec.Index, uint32(hashStr(string(b))))
+	os.MkdirAll(dir, 0755)
+	rec.Replay = filepath.Join(dir, name)
+	if err := ioutil.WriteFile(rec.Replay, b, 0644); err != nil {
+		return fmt.Errorf("cannot write replay file: %v", err)
+	}
+	return nil
 }
 
 func sampleOf(sc *Scenario) json.RawMessage {
@@ -280,6 +292,7 @@ func mainReplay(args []string) int {
 		fmt.Fprintln(os.Stderr, "simexec: bad replay file:", err)
 		return 2
 	}
+	knownGlobal = loadKnown(*knownPath)
 	p := properties[rf.Property]
 	if p == nil || rf.Scenario == nil {
 		fmt.Fprintln(os.Stderr, "simexec: replay file names unknown property", rf.Property)
@@ -313,14 +326,21 @@ func mainReplay(args []string) int {
 			}
 		}
 	}
-	known := loadKnown(*knownPath)
+	for _, kid := range sortedKeys(v.KnownHits) {
+		fmt.Printf("KNOWN-FINDING-REPRODUCED property=%s %s: %s\n", rf.Property, kid, v.KnownHits[kid])
+	}
 	if v.OK {
+		if strings.HasPrefix(rf.Class, "known:") {
+			if _, ok := v.KnownHits[strings.TrimPrefix(rf.Class, "known:")]; ok {
+				return 4
+			}
+		}
 		fmt.Printf("REPLAY-OK property=%s recorded_class=%s (the recorded violation does not occur on this tree)\n", rf.Property, rf.Class)
 		return 0
 	}
 	fmt.Printf("violation class=%s\n%s\n", v.Class, v.Msg)
 	same := v.Class == rf.Class
-	fmt.Printf("REPLAY-VIOLATION property=%s class=%s same_class_as_recorded=%v known=%q\n", rf.Property, v.Class, same, known.match(rf.Scenario, v))
+	fmt.Printf("REPLAY-VIOLATION property=%s class=%s same_class_as_recorded=%v\n", rf.Property, v.Class, same)
 	if !same {
 		return 3
 	}
